@@ -1448,9 +1448,15 @@ def gen_end_program(seed):
     def lit(n=None):
         return {'t': 'match', 'm': {'k': 'str', 'bytes': [r.choice(A) for _ in range(n or r.randint(1, 2))]}}
     mark = lambda v: {'t': 'set', 'var': 'seen', 'e': {'k': 'num', 'v': v}}
-    shape = r.randrange(14)
+    shape = r.randrange(16)
     inv = lambda bs: {'k': 're', 'r': {'k': 'set', 'inv': True, 'items': [['ch', b] for b in bs]}, 'bin': False}
-    if shape >= 11:
+    if shape >= 14:
+        # finish statements reached by end-of-input: an `end` arm that finishes with a code, a plain finish arm, a handler that finishes
+        arms = [{'ps': [END_], 'prio': 0, 'b': [mark(2), {'t': 'finish', 'code': r.choice(['EARLY', ''])}]},
+                {'ps': [{'k': 'str', 'bytes': [113]}], 'prio': 0, 'b': [{'t': 'finish', 'code': r.choice(['', 'LATE'])}]}]
+        inner = [lit(), {'t': 'case', 'greedy': False, 'cl': arms}]
+        body = [{'t': 'try', 'b': inner, 'handles': ['nomatch'], 'h': [mark(5), {'t': 'finish', 'code': 'LATE'}]}] if shape == 14 else inner
+    elif shape >= 11:
         # the program may end before an optional trailer that starts with a wait: end() right after the mandatory part finds an
         # accepting state whose end-of-input move is the wait's consuming skip transition
         x = r.choice(A)
